@@ -15,6 +15,16 @@ CHECKS = {
             "reference-model oracle (substitution semantics) + icontract postconditions on the real pass"),
     "C05": ("fill_in_let output compared with reference let evaluation under generated override dictionaries; graph walk for leftover constants; resolved-qubit comparison through the result's own objects",
             "reference-model oracle (let evaluation in an environment)"),
+    "C06": ("bounded-exhaustive alias chains (all in-range start/stop/step per level, literal/defaulted/let-valued bounds, every index, five statement positions); expected physical index from model arithmetic; five consumers compared (resolve_qubit, fill_in_map, used-qubit analysis, emulator, pyGSTi label)",
+            "reference arithmetic on declarations + consumer agreement monitors"),
+    "C08": ("call histories of the emulator and of parse_jaqal_output_list (readout sequence, per-subcircuit readout lists, frequencies) compared with the reference unrolling; termination judged as a logical step budget counted with sys.monitoring LINE events",
+            "history checker against reference unrolling + sys.monitoring step budget"),
+    "C12": ("bounded-exhaustive bracket sequences of prepare/measure/gate leaves under loop/block/macro/subcircuit containers judged against a flat-order scan transcribed from the property statement; accepted programs have subcircuit count and states compared",
+            "reference acceptance oracle over an enumerated space + state comparison"),
+    "C13": ("used-qubit sets of circuits and statements compared with reference reachability; emulator acceptance compared with a reference overlap scan; branch permutations; event log of every merge_into decision",
+            "reference-model oracle + event log of merge decisions + metamorphic permutation"),
+    "C15": ("all result views (probabilities, string/int keyed views, readout forms, frequencies) checked against an independent bits(k,n) and plain counting on emulator results, exhaustive outcome lists for n<=6/8 as int and as str, and perturbed probability vectors",
+            "invariant monitor over returned result objects"),
     "C09": ("expand_subcircuits output compared with reference expansion; execution and output-list parsing compared between the subcircuit spelling and the prepare/measure spelling under the same numpy seed",
             "reference-model oracle + metamorphic execution pairs under a logical step budget"),
 }
